@@ -50,6 +50,7 @@ def plans_for(spec: dict, tier: str) -> t.List[dict]:
     names = list(spec['nodes'])
     pl.append(dict(pl[0], **{names[len(names) // 2]: ['raise:E1']}))
     pl.append(dict(pl[0], **{names[-1]: ['none']}))
+    pl += [p for p in corpus.extra_plans(spec) if not any(v[0] == 'raise:Fatal' for v in p.values())][:3]   # retry sequences
     return pl
 
 
@@ -263,7 +264,7 @@ def run(prop: str, tier: str, seed: int) -> dict:
     q = tier == 'quick'
     # ---- part A
     items = [(tier, 'plain', sp) for sp in EN.family('plain', 'quick') if len(sp['nodes']) <= (4 if q else 5)]
-    items += [(tier, 'corpus', sp) for n, sp, _ in corpus.entries() if len(sp['nodes']) <= (4 if q else 5) or n in ('switch_basic', 'oneof_basic')]
+    items += [(tier, 'corpus', sp) for n, sp, _ in corpus.entries() if len(sp['nodes']) <= (4 if q else 5) or n in ('switch_basic', 'oneof_basic', 'retry2', 'retry_default')]
     if not q:
         for f in ('switch', 'oneof', 'rec'):
             items += [(tier, f, sp) for sp in EN.family(f, 'quick') if len(sp['nodes']) <= 4]
